@@ -202,6 +202,10 @@ macro_rules! stmt_line_harness {
 }
 
 // @verif-block props=C14 tier=quick cap=900 group=core doc=code_generation_of_the_listed_statement_(empty_bodies)_on_ANY_line_L_after_a_statement_on_ANY_other_line:_every_instruction_emitted_for_it_carries_line_L_in_the_line_table
+stmt_line_harness!(c14_codegen_line_block, 2, |sp| Stmt::Block(Spanned::new(
+    crate::compiler::ast::Block { name: "b", required: true, body: Vec::new() },
+    sp
+)));
 stmt_line_harness!(c14_codegen_line_set, 4, |sp| Stmt::Set(Spanned::new(Set { target: var_on("y", sp), expr: var_on("x", sp) }, sp)));
 stmt_line_harness!(c14_codegen_line_include, 4, |sp| Stmt::Include(Spanned::new(Include { name: var_on("x", sp), ignore_missing: false }, sp)));
 stmt_line_harness!(c14_codegen_line_do, 6, |sp| Stmt::Do(Spanned::new(
